@@ -6,16 +6,16 @@ SPEC = {
     "units": [
         {"name": "udh", "pkg": UDH, "kind": "rapid", "run": "^TestVerifC13UDH$",
          "quick": {"checks": 200, "shards": 2, "timeout": 300},
-         "thorough": {"checks": 1500, "shards": 8, "timeout": 1500}},
+         "thorough": {"checks": 1500, "shards": 8, "timeout": 1800}},
         {"name": "split", "pkg": O3, "kind": "plain", "run": "^TestVerifC13MagicSplit$",
          "quick": {"shards": 2, "timeout": 300},
          "thorough": {"shards": 4, "timeout": 1500}},
         {"name": "stream", "pkg": O3, "kind": "rapid", "run": "^TestVerifC13Stream$",
          "quick": {"checks": 400, "shards": 4, "timeout": 300},
-         "thorough": {"checks": 1000, "shards": 16, "timeout": 1500}},
+         "thorough": {"checks": 3000, "shards": 16, "timeout": 1800}},
         {"name": "reject", "pkg": O3, "kind": "rapid", "run": "^TestVerifC13Reject$",
          "quick": {"checks": 250, "shards": 2, "timeout": 300},
-         "thorough": {"checks": 1000, "shards": 8, "timeout": 1500}},
+         "thorough": {"checks": 2000, "shards": 8, "timeout": 1800}},
     ],
 }
 
